@@ -198,9 +198,13 @@ pub async fn fates_once(queue: &[(u64, bool)], curr: &[u64], op: &str, mode: &st
 
 /// A worker record with the given queued job keys (msg ids 0..), in-flight keys and draining flag, backed by a worker actor that logs the msg ids it handles.
 pub async fn record_logging(queue: &[u64], curr: &[u64], draining: bool) -> (WorkerProperties<u64, u64>, std::sync::Arc<std::sync::Mutex<Vec<u64>>>, std::sync::Arc<Recorder>) {
+    record_logging_at(0, queue, curr, draining).await
+}
+
+pub async fn record_logging_at(wid: usize, queue: &[u64], curr: &[u64], draining: bool) -> (WorkerProperties<u64, u64>, std::sync::Arc<std::sync::Mutex<Vec<u64>>>, std::sync::Arc<Recorder>) {
     let got = std::sync::Arc::new(std::sync::Mutex::new(Vec::new()));
     let (actor, handle) = crate::Actor::spawn(None, LoggingWorker(got.clone()), ()).await.expect("worker");
-    let mut w = WorkerProperties::new("verif".to_string(), 0, actor, WorkerDiscardSettings::None, None, handle, None);
+    let mut w = WorkerProperties::new("verif".to_string(), wid, actor, WorkerDiscardSettings::None, None, handle, None);
     let rec = std::sync::Arc::new(Recorder(std::sync::Mutex::new(Vec::new())));
     w.discard_handler = Some(rec.clone());
     for (i, k) in queue.iter().enumerate() {
@@ -217,6 +221,10 @@ pub async fn record_logging(queue: &[u64], curr: &[u64], draining: bool) -> (Wor
 
 pub fn recorded(rec: &Recorder) -> Vec<(String, u64)> {
     rec.0.lock().unwrap().clone()
+}
+
+pub fn flags(w: &WorkerProperties<u64, u64>) -> (bool, bool, crate::ActorId, usize) {
+    (w.is_draining, !w.curr_jobs.is_empty() || !w.message_queue.is_empty(), w.actor.get_id(), w.wid)
 }
 
 pub fn queue_ids(w: &WorkerProperties<u64, u64>) -> Vec<u64> {
